@@ -106,6 +106,19 @@ def run(ctx):
                 runs.append(Run("fn%d_%s_%d" % (oi, ext, dotted), {"in/order." + ext: render(sc)}, argv))
                 meta.append((si, "file-name %s %s" % (ext, "dotted" if dotted else "dot-less")))
         schemas.append(sc)
+    # the two pointer prefixes mixed inside ONE document whose nodes collide on a Go name: the definition `OrderLine` and the inline property `line` of
+    # `Order` are the same schema (each refers to `Money`); written with different prefixes they are still the same schema
+    def collide_doc(block, p1, p2):
+        money = {"type": "object", "properties": {"amount": {"type": "number"}, "currency": {"type": "string"}}}
+        return {"type": "object", block: {"Money": money, "OrderLine": {"type": "object", "properties": {"price": {"$ref": "#/%s/Money" % p1}, "qty": {"type": "integer"}}},
+                                          "Order": {"type": "object", "properties": {"line": {"type": "object", "properties": {"price": {"$ref": "#/%s/Money" % p2}, "qty": {"type": "integer"}}}}}},
+                "properties": {"o": {"$ref": "#/%s/Order" % p1}, "extra": {"$ref": "#/%s/OrderLine" % p2}}}
+    si = len(schemas)
+    for vn, (block, p1, p2) in {"current": ("$defs", "$defs", "$defs"), "legacy": ("definitions", "definitions", "definitions"), "mixed-a": ("$defs", "$defs", "definitions"),
+                                "mixed-b": ("$defs", "definitions", "$defs"), "mixed-c": ("definitions", "definitions", "$defs")}.items():
+        runs.append(Run("cm_%s" % vn.replace("-", ""), {"in/s.json": json.dumps(collide_doc(block, p1, p2))}, ["-p", "pkg", "in/s.json"]))
+        meta.append((si, "prefix-mix %s" % vn))
+    schemas.append(collide_doc("$defs", "$defs", "$defs"))
     # YAML files whose extension is written in upper or mixed case and registered in that same spelling
     for oi, sc in enumerate(list(SPECIAL[:1]) + schemas[len(SPECIAL):len(SPECIAL) + 2]):
         si = len(schemas)
